@@ -130,7 +130,7 @@ def run_case(data):
         usable = sorted(s for s in m.streams if s not in w.tainted)
         kind = ch.weighted([(6, 'open-local' if client else 'push'), (6, 'open-peer' if not client else 'peer-push'),
                             (3, 'local-end'), (3, 'peer-end'), (2, 'respond'), (4, 'prio'), (2, 'query'),
-                            (1, 'cleanup')])
+                            (1, 'cleanup')] + ([(4, 'peer-headers-on-promised')] if client else []))
         op = None
         if kind == 'open-local':
             sid = pick_id(ch, w.next_local_id(), m.hi_local, 1)
@@ -147,6 +147,13 @@ def run_case(data):
             if sid > TOP or sid in w.tainted:
                 continue
             op = (kind, sid, ch.chance(64))
+        elif kind == 'peer-headers-on-promised':
+            # HEADERS from the server on an even id: the response on a promised stream, or a late / repeated
+            # block on one that is closed (by reset, or normally) or was never promised
+            sid = pick_id(ch, w.next_peer_id(), m.hi_peer, 0)
+            if sid > TOP or sid in w.tainted:
+                continue
+            op = ('open-peer', sid, ch.chance(128))
         elif kind == 'peer-push':
             parents = [s for s in usable if s % 2 == 1 and m.get(s).state in (M.OPEN, M.HC_LOCAL)]
             if not parents:
@@ -197,9 +204,9 @@ def run_case(data):
         ops.append(op)
         if kind in ('open-local', 'push'):
             local_opens += 1
-        if kind in ('open-peer', 'peer-push'):
+        if kind in ('open-peer', 'peer-push', 'peer-headers-on-promised'):
             peer_opens += 1
-        if w.rejected > nrej and kind in ('open-local', 'push', 'open-peer', 'peer-push'):
+        if w.rejected > nrej and kind in ('open-local', 'push', 'open-peer', 'peer-push', 'peer-headers-on-promised'):
             rejected += 1
     # metamorphic replay without the PRIORITY frames
     if not r.violations and any(op[0] == 'prio' for op in ops):
